@@ -131,6 +131,9 @@ class SsbGraphMinimizer:
         outs = g.incident(jump, OUT)
         assert len(outs) == 1
         ov = g.es[outs[0]].target_vertex
+        if label.index == 0 or label["op"].referenced_from_other_routine:
+            # The entry point of the routine and labels that other routines jump to have to stay.
+            return []
         if isinstance(ov["op"], SsbLabel):
             # The jump target is just another label, redirect previous label to this one.
             ins = g.incident(label, IN)
@@ -750,6 +753,7 @@ class SsbGraphMinimizer:
                         assert len(out_edges) == 1
                         if (
                             v["op"].id == 0
+                            or v.index == 0  # entry point of the routine
                             or in_edges[0]["loop"]
                             or (
                                 isinstance(v["op"], SsbLabel)
